@@ -3,6 +3,6 @@
 tier=${1:-quick}; seed=${2:-1}
 for i in $(seq -w 1 20); do
   p=C$i
-  out=$(cd /verif && VERIF_SEED=$seed bin/check $p --tier $tier 2>&1); rc=$?
+  out=$(cd "$(dirname "$0")/.." && VERIF_SEED=$seed bin/check $p --tier $tier 2>&1); rc=$?
   echo "$p rc=$rc $(echo "$out" | grep -E '^(OK|VIOLATION|KNOWN-FINDING|CHECK-BROKEN)' | cut -c1-160 | tr '\n' ';')"
 done
